@@ -1,6 +1,7 @@
 """C17 — shows run on schedule without drift and clean up after themselves (specs/Shows).
 
-Scenario table -> generated machine (show files, show pools, show_player entries) -> generated MC module ->
+Scenario table -> generated machines (show files, show pools, show_player entries; one machine per value of
+mpf: default_show_sync_ms) -> generated MC module ->
 exhaustive TLC check -> simulated schedules -> execution on real mpf shows in virtual time with injected
 timer lateness (+ differential runs without each show) -> trace validation against ShowsTrace.
 """
@@ -18,26 +19,46 @@ PALETTE = ['000000', 'ff0000', '00ff00', '0000ff', 'ffffff']
 KINDS = ('played', 'looped', 'completed', 'stopped')
 XKINDS = ('advanced', 'stepped_back', 'paused', 'resumed', 'updated')
 SLOT_KEYS = ('durs', 'lt', 'col', 'coil', 'sp', 'loops', 'start', 'sync', 'manual', 'prio', 'key', 'blockq',
-             'pool', 'via', 'form', 'tok', 'share')
+             'pool', 'via', 'form', 'tok', 'share', 'same', 'quiet')
 
 
 def S(durs, lt=None, col=None, coil=None, sp=(1, 1), loops=0, start=1, sync=0, manual=False, prio=1, key='a',
-      blockq=False, pool=False, via='player', form='d', tok=False, share=0):
+      blockq=False, pool=False, via='player', form='d', tok=False, share=0, quiet=False):
     """One show slot: step durations in units (-1: hold), light (0: none) / colour / coil (1: enable) per step.
 
+    sync: the sync grid of the request in units; 0: an explicit sync_ms 0; -1: sync_ms is not given (the machine-wide
+    mpf: default_show_sync_ms applies);
     tok: lights, colours and the step events of the show file are tokens filled in by the play request;
-    share=n: the slot plays the show file of slot n (with its own token values).
+    share=n: the slot plays the show file of slot n (with its own token values);
+    quiet: the request names no events_when_played / events_when_stopped (show_player may then keep a running instance
+    of the very same config instead of replacing it).
     """
     n = len(durs)
     return dict(durs=list(durs), lt=list(lt if lt is not None else [1] * n),
                 col=list(col if col is not None else [(i % 4) + 1 for i in range(n)]),
                 coil=list(coil if coil is not None else [0] * n), sp=list(sp), loops=loops, start=start, sync=sync,
-                manual=manual, prio=prio, key=key, blockq=blockq, pool=pool, via=via, form=form, tok=tok, share=share)
+                manual=manual, prio=prio, key=key, blockq=blockq, pool=pool, via=via, form=form, tok=tok, share=share,
+                same=0, quiet=quiet)
 
 
-def CFG(i, unit, *slots, fade=0):
-    """A scenario: unit length in ms, one or two show slots, default fade of light l2 in units."""
-    return dict(id=i, unit=unit, sh=list(slots), fade=fade)
+def AGAIN(n):
+    """A slot that is the SAME play request as slot n (the same show_player entry posted again)."""
+    return {'same': n}
+
+
+def CFG(i, unit, *slots, fade=0, dsync=0):
+    """A scenario: unit length in ms, one to three show slots, default fade of light l2 in units, the machine-wide
+    default_show_sync_ms in units (0: the machine configures none)."""
+    sh = []
+    for s in slots:
+        if set(s) == {'same'}:
+            o = sh[s['same'] - 1]
+            assert o['via'] == 'player' and not o['same']
+            s = dict(o, durs=list(o['durs']), lt=list(o['lt']), col=list(o['col']), coil=list(o['coil']),
+                     sp=list(o['sp']), same=s['same'])
+        sh.append(s)
+    assert abs(dsync * unit - round(dsync * unit)) < 1e-9
+    return dict(id=i, unit=unit, sh=sh, fade=fade, dsync=dsync)
 
 
 TABLE = [
@@ -75,12 +96,42 @@ TABLE = [
     CFG(23, 100.0 / 7, S([7, 14], lt=[1, 2], sp=(7, 1), loops=3, start=2)),
     # --- two shows holding the same coil
     CFG(20, 100, S([1, 2], coil=[1, 0], loops=-1, prio=1, key='a'), S([2, 1], lt=[2, 2], coil=[0, 1], loops=0, prio=2, key='b')),
+    # --- the same play request arriving again (switch bounce, event posted twice): to a show that waits for its sync
+    #     point (alone, or about to replace a running show of another config), to a running show; requests that name
+    #     played / stopped events (always a new instance) and quiet ones (show_player may keep / advance the instance)
+    CFG(30, 250, S([1, 2], loops=-1, key='a', quiet=True), S([2, 1], col=[3, 4], loops=-1, key='a', pool=True, sync=2, quiet=True),
+        AGAIN(2)),
+    CFG(31, 125, S([1, 1], lt=[1, 2], loops=-1, key='a', sync=2), AGAIN(1), AGAIN(1)),
+    CFG(32, 100, S([1, 1, 1], lt=[1, 2, 1], loops=1, manual=True, start=2, key='a', quiet=True), AGAIN(1)),
+    CFG(33, 100, S([2, 2], lt=[1, 2], loops=-1, key='a', quiet=True), AGAIN(1),
+        S([1, 1], lt=[2, 2], col=[3, 4], loops=0, key='a', sync=3, pool=True)),
+    CFG(34, 100, S([1, 2], loops=2, key='a', sync=2, quiet=True, start=2), AGAIN(1),
+        S([3], lt=[2], col=[4], loops=-1, key='b', prio=4)),
+    # --- machines with a default_show_sync_ms: requests that give no sync_ms (the default applies), an explicit 0
+    #     (starts at once), their own grid; replacement between them; direct Show.play() with sync_ms None / 0
+    CFG(40, 100, S([1, 2], lt=[1, 2], loops=-1, sync=-1), dsync=2),
+    CFG(41, 100, S([2, 4], lt=[1, 2], loops=1, sync=0, sp=(2, 1), form='abs'),
+        S([2, 1], lt=[2, 1], col=[3, 4], loops=0, sync=-1, key='b', via='direct', prio=3), dsync=2),
+    CFG(42, 250, S([1, 1], loops=-1, sync=-1, key='a'), S([2], col=[3], loops=-1, sync=0, key='a', pool=True),
+        S([1, 2], lt=[2, 2], col=[4, 2], loops=0, sync=0, key='c', via='direct', tok=True), dsync=2),
+    CFG(43, 125, S([2, 1], loops=-1, sync=0, key='a', quiet=True), S([1, 1], col=[3, 4], loops=-1, sync=-1, key='a', quiet=True),
+        AGAIN(2), dsync=4),
+    CFG(44, 50, S([2, 2], lt=[1, 2], loops=0, sync=3, key='a', blockq=True, pool=True),
+        S([1], lt=[2], col=[4], loops=2, sync=-1, key='b'), dsync=4),
 ]
 CFGS = {c['id']: c for c in TABLE}
 
 
 def cfg_rec(c):
-    return {'id': c['id'], 'fade': c['fade'], 'sh': [{k: s[k] for k in SLOT_KEYS} for s in c['sh']]}
+    return {'id': c['id'], 'fade': c['fade'], 'dsync': c['dsync'], 'sh': [{k: s[k] for k in SLOT_KEYS} for s in c['sh']]}
+
+
+def dsync_ms(c):
+    return int(round(c['dsync'] * c['unit']))
+
+
+def machine_dir(scratch, cid):
+    return os.path.join(scratch, 'machines', 'shows_%d' % dsync_ms(CFGS[cid]))
 
 
 def show_name(cid, sh, sc=None):
@@ -143,18 +194,31 @@ def show_yaml(cid, sh, sc, unit):
 
 
 def write_machine(scratch):
-    d = os.path.join(scratch, 'machines', 'shows')
+    """One machine per machine-wide default_show_sync_ms in the table, each with the scenarios that need it."""
+    for ms in sorted({dsync_ms(c) for c in TABLE}):
+        _write_machine(os.path.join(scratch, 'machines', 'shows_%d' % ms), ms)
+    return scratch
+
+
+def _write_machine(d, ms):
     os.makedirs(d + '/config', exist_ok=True)
     os.makedirs(d + '/shows', exist_ok=True)
-    L = ['#config_version=6', 'lights:']
+    L = ['#config_version=6']
+    if ms:
+        L += ['mpf:', '  default_show_sync_ms: %d' % ms]
+    L += ['lights:']
     for i in range(1, NL + 1):
         L += ['  l%d:' % i, '    number: %d' % i]
     L += ['coils:', '  c1:', '    number: 1', '    allow_enable: true']
     pools, player = [], []
     for c in TABLE:
+        if dsync_ms(c) != ms:
+            continue
         cid, unit = c['id'], c['unit']
         keys = set()
         for sh, sc in enumerate(c['sh'], 1):
+            if sc['same']:
+                continue            # the same show_player entry as its original
             if not sc['share']:
                 with open('%s/shows/%s.yaml' % (d, show_name(cid, sh)), 'w') as f:
                     f.write(show_yaml(cid, sh, sc, unit))
@@ -163,15 +227,17 @@ def write_machine(scratch):
             sp = sc['sp'][0] / sc['sp'][1]
             player += ['  vs_play_%d_%d:' % (cid, sh), '    %s:' % play_target(cid, sh, sc),
                        '      key: %s' % key_name(cid, sc), '      priority: %d' % sc['prio'], '      speed: %r' % sp,
-                       '      loops: %d' % sc['loops'], '      start_step: %d' % sc['start'],
-                       '      sync_ms: %d' % round(sc['sync'] * unit),
-                       '      manual_advance: %s' % ('true' if sc['manual'] else 'false'),
+                       '      loops: %d' % sc['loops'], '      start_step: %d' % sc['start']]
+            if sc['sync'] >= 0:
+                player.append('      sync_ms: %d' % round(sc['sync'] * unit))
+            player += ['      manual_advance: %s' % ('true' if sc['manual'] else 'false'),
                        '      block_queue: %s' % ('true' if sc['blockq'] else 'false')]
             tk = tokens(sc, sh)
             if tk:
                 player.append('      show_tokens:')
                 player += ['        %s: "%s"' % kv for kv in sorted(tk.items())]
-            player += ['      events_when_%s: vs_%d_%d_%s' % (k, cid, sh, k) for k in KINDS]
+            player += ['      events_when_%s: vs_%d_%d_%s' % (k, cid, sh, k) for k in KINDS
+                       if not (sc['quiet'] and k in ('played', 'stopped'))]
             # further per-request events are configured as real shows do (nobody listens): the lists they come from must
             # not leak into the four events the statement names
             player += ['      events_when_%s: vx_%d_%d_%s' % (k, cid, sh, k) for k in XKINDS]
@@ -234,11 +300,12 @@ _H = {}
 
 
 def _machine(mdir):
-    if _H.pop('dirty', False) and 'h' in _H:
+    if (_H.pop('dirty', False) or _H.get('mdir') != mdir) and 'h' in _H:
         harness.shutdown(_H.pop('h'))
     if 'h' not in _H:
         h = harness.boot(None, machine_dir=mdir)
         _H['h'] = h
+        _H['mdir'] = mdir
         _H['log'] = []
         _H['proxies'] = []
         _H['rs'] = []
@@ -246,6 +313,8 @@ def _machine(mdir):
         ev = h.machine.events
         for c in TABLE:
             for sh, sc in enumerate(c['sh'], 1):
+                if sc['same']:
+                    continue        # its events are those of the original
                 for k in KINDS:
                     ev.add_handler('vs_%d_%d_%s' % (c['id'], sh, k), _mk(h, c['id'], sh, k))
                 for k in range(1, len(sc['durs']) + 1):
@@ -283,6 +352,7 @@ def _cleanup(h):
 
 def exec_schedule(job):
     mdir, cid, sched = job
+    mdir = machine_dir(mdir, cid)
     try:
         return _exec_all(mdir, cid, sched)
     except Exception as ex:  # pylint: disable=broad-except
@@ -365,9 +435,10 @@ def _exec(mdir, cid, sched, skip, dynamic):
         rec = dict(a)
         Sx = []
         for sh in range(1, nsl + 1):
+            # the event bus does not tell the instances of one and the same request apart: recorded under the original
             steps = [[w, tick(t)] for (ci, s2, w, t) in log if ci == cid and s2 == sh and isinstance(w, int)]
             evs = [w for (ci, s2, w, t) in log if ci == cid and s2 == sh and isinstance(w, str)]
-            evs += ['qdone' for s2 in qd if s2 == sh]
+            evs += ['qdone' for s2 in qd if root(s2) == sh]
             r = rs[sh]
             sched_t = -1
             own = []
@@ -383,7 +454,7 @@ def _exec(mdir, cid, sched, skip, dynamic):
                         if e.key == key:
                             own.append([li, int(e.priority), tick(e.start_time), colidx(e.dest_color),
                                         tick(e.dest_time) if e.dest_time else 0])
-            Sx.append({'steps': steps, 'ev': evs, 'sched': sched_t, 'own': own})
+            Sx.append({'steps': steps, 'ev': evs, 'sched': sched_t, 'own': own, 'live': r is not None and not r.stopped})
         del log[:]
         del qd[:]
         rec['S'] = Sx
@@ -396,6 +467,9 @@ def _exec(mdir, cid, sched, skip, dynamic):
             qd.append(sh)
         return cb
 
+    def root(sh):
+        return c['sh'][sh - 1]['same'] or sh
+
     def do(a):
         op, sh = a['op'], a.get('sh')
         sc = c['sh'][sh - 1]
@@ -407,24 +481,31 @@ def _exec(mdir, cid, sched, skip, dynamic):
         elif op == 'resume' and r is not None and pending(r):
             notes.append([len(lines) + 1, 'resume-armed'])  # resume to a show that is not paused
         if op == 'play':
-            for o in range(1, nsl + 1):
-                if o != sh and c['sh'][o - 1]['key'] == sc['key'] and rs[o] is not None and not rs[o].stopped:
-                    repl[o] = True
             if player:
-                name = 'vs_play_%d_%d' % (cid, sh)
+                held = inst.get(kn)
+                name = 'vs_play_%d_%d' % (cid, root(sh))
                 if sc['blockq']:
                     m.events.post_queue(name, callback=mk_qdone(sh))
                 else:
                     m.events.post(name)
                 settle()
-                rs[sh] = inst.get(kn)
+                new = inst.get(kn)
+                if new is not None and new is not held:
+                    # a new instance holds the key; the one that held it can no longer be reached through show_player
+                    for o in range(1, nsl + 1):
+                        if o != sh and c['sh'][o - 1]['via'] == 'player' and c['sh'][o - 1]['key'] == sc['key'] \
+                                and rs[o] is not None and not rs[o].stopped:
+                            repl[o] = True
+                    rs[sh] = new
+                # else: show_player kept the instance it had (the slot of this request has no RunningShow of its own)
             else:
                 rs[sh] = m.shows[play_target(cid, sh, sc)].play(
                     priority=sc['prio'], speed=sc['sp'][0] / sc['sp'][1], start_step=sc['start'], loops=sc['loops'],
-                    sync_ms=sc['sync'] * c['unit'], manual_advance=sc['manual'], show_tokens=tokens(sc, sh),
+                    sync_ms=(sc['sync'] * c['unit'] if sc['sync'] >= 0 else None), manual_advance=sc['manual'],
+                    show_tokens=tokens(sc, sh),
                     **dict({'events_when_' + k: ['vs_%d_%d_%s' % (cid, sh, k)] for k in KINDS},
                            **{'events_when_' + k: ['vx_%d_%d_%s' % (cid, sh, k)] for k in XKINDS}))
-            if rs[sh] is not None:
+            if rs[sh] is not None and rs[sh] not in _H['rs']:
                 _H['rs'].append(rs[sh])
         elif op == 'stop':
             m.events.post('vs_stop_' + kn) if player else r.stop()
@@ -505,8 +586,8 @@ CONSTANTS
 %sCHECK_DEADLOCK FALSE
 """
 PROPS = ('INVARIANT TypeOK\nINVARIANT OnSchedule\nINVARIANT NeverEarly\nINVARIANT SyncOnGrid\nINVARIANT EventsOnce\n'
-         'INVARIANT CleanAfterStop\nPROPERTY LoopsAndCompletion\nPROPERTY StartStep\nPROPERTY PausedIsSilent\n'
-         'PROPERTY QueueReleasedAtEnd\n')
+         'INVARIANT CleanAfterStop\nINVARIANT KeyExclusive\nPROPERTY LoopsAndCompletion\nPROPERTY StartStep\n'
+         'PROPERTY PausedIsSilent\nPROPERTY QueueReleasedAtEnd\nPROPERTY SyncHonoured\nPROPERTY ReplacedAtStart\n')
 TRACE_CFG = """SPECIFICATION TSpec
 CONSTANTS
   Configs <- TConfigs
@@ -525,9 +606,12 @@ MONITORS = """INVARIANT OnSchedule
 INVARIANT NeverEarly
 INVARIANT EventsOnce
 INVARIANT CleanAfterStop
+INVARIANT KeyExclusive
 PROPERTY LoopsAndCompletion
 PROPERTY StartStep
 PROPERTY QueueReleasedAtEnd
+PROPERTY SyncHonoured
+PROPERTY ReplacedAtStart
 CHECK_DEADLOCK FALSE
 """
 
@@ -560,6 +644,25 @@ def handmade():
         (21, [P(1), A, P(2), A, A, A, A, A, A, A]),
         (18, [P(1), A, A, A, St(1), A, A, A]),
         (19, [P(1), P(2), A, A, A, A, A, A]),
+        # the same request again while the show it started waits for its sync point (replacing a running show or not)
+        (30, [A, P(1), A, A, P(2), P(3), A, A, A, A, St(3), A]),
+        (30, [P(1), A, P(2), A, P(3), A, A, A]),
+        (30, [A, P(2), P(3), A, A, A, A]),
+        (31, [A, P(1), P(2), A, P(3), A, A, A, St(3), A]),
+        (34, [A, P(3), P(1), A, P(2), A, A, A, A, A, A, A, A]),
+        (43, [A, P(1), A, P(2), A, P(3), A, A, A, A, A, A]),
+        # ... stop while waiting: the show never starts, the show it was to replace is stopped with it
+        (30, [P(1), A, P(2), St(2), A, A, A]),
+        (12, [P(1), A, P(2), St(2), A, A, A]),
+        # ... and to a show that runs: at the target step (kept), one step behind it (advanced), elsewhere (replaced)
+        (32, [P(1), A, P(2), A, {'op': 'step_back', 'sh': 1, 'n': 1}, P(2), A, P(2), A, A]),
+        (33, [P(1), A, P(2), A, A, P(2), A, A, P(3), A, P(2), A, A, A, A]),
+        # a machine-wide default sync grid: no sync_ms given / an explicit 0 / a grid of its own
+        (40, [A, P(1), A, A, A, A, A, St(1), A]),
+        (41, [A, P(1), P(2), A, A, A, A, A]),
+        (42, [A, P(1), A, A, P(2), A, P(3), A, A, A]),
+        (42, [A, P(2), A, P(1), A, A, A, A]),
+        (44, [A, P(1), P(2), A, A, A, A, A, A, A, A, A]),
     ]
 
 
@@ -614,7 +717,7 @@ FINDINGS = {
 def run(ctx):
     mdir = write_machine(ctx.scratch)
     wd = tlc.prepare(ctx.scratch, 'Shows', 'shows')
-    mc_ids = (1, 2, 4, 6, 10, 12, 14, 15, 18) if ctx.quick else tuple(c['id'] for c in TABLE)
+    mc_ids = (1, 2, 4, 6, 10, 12, 14, 15, 18, 30, 32, 34, 41, 43) if ctx.quick else tuple(c['id'] for c in TABLE)
     table = [c for c in TABLE if c['id'] in mc_ids]
     with open(wd + '/ShowsMC.tla', 'w') as f:
         f.write(mc_module(table))
@@ -625,8 +728,8 @@ def run(ctx):
     ctx.add_tlc('ShowsMC', r, {'configs': len(table), 'MaxTime': bounds[0], 'MaxOps': bounds[1], 'Lates': bounds[2],
                                'AdvN': bounds[3], 'BackN': bounds[4]})
     ctx.coverage['monitors'] += ['OnSchedule', 'NeverEarly', 'SyncOnGrid', 'EventsOnce', 'CleanAfterStop', 'LoopsAndCompletion',
-                                 'StartStep', 'PausedIsSilent', 'QueueReleasedAtEnd',
-                                 'Obs(steps, events, sched, own, colours, coil, differential)']
+                                 'StartStep', 'PausedIsSilent', 'QueueReleasedAtEnd', 'KeyExclusive', 'SyncHonoured',
+                                 'ReplacedAtStart', 'Obs(steps, events, sched, own, live, colours, coil, differential)']
     with open(wd + '/ShowsMC.tla', 'w') as f:
         f.write(mc_module(TABLE))
     # schedules: the main batch issues requests only where the statement gives them an effect; the odd batch also
@@ -639,6 +742,7 @@ def run(ctx):
                                seed=ctx.seed + (0 if odd == 'FALSE' else 1000))
         jobs += [(mdir, b[0]['cfg']['id'], [s['act'] for s in b]) for b in behs]
     jobs += [(mdir, cid, s) for cid, s in handmade() + handmade_odd()]
+    jobs.sort(key=lambda j: dsync_ms(CFGS[j[1]]))       # a worker keeps one machine booted: few switches per chunk
     traces = harness.pmap(exec_schedule, jobs, nproc=8, chunk=8)
     with open(wd + '/Trace.cfg', 'w') as f:
         f.write(trace_cfg())
@@ -696,8 +800,11 @@ def run(ctx):
         ctx.coverage['rejected_by_signature'][k] = ctx.coverage['rejected_by_signature'].get(k, 0) + 1
     ctx.assumptions += ['virtual time (TimeTravelLoop); lateness injected by wrapping loop.call_at for RunningShow callbacks only',
                         'one abstract unit = 50..250 ms per scenario; lateness in whole units',
-                        'pause/advance/step_back/update are issued only to shows that have started; requests to shows waiting '
-                        'for their sync point are not generated',
+                        'pause/resume/advance/step_back/update are issued only to shows that have started; shows waiting for '
+                        'their sync point receive play requests (the same request again, requests of another config under '
+                        'the same key) and stop requests',
+                        'the same request arriving again is a slot of its own in the model (same = n); the event bus cannot '
+                        'tell the instances of one request apart, so their step / show events are compared as a group',
                         'mid-fade colours are not compared; colours and the differential run are compared when lights are at rest']
 
 
